@@ -72,3 +72,11 @@ func VerifConnKey(conn any) string {
 	}
 	return ""
 }
+
+// VerifConnChan identifies a connection by the channel the session registry holds for it.
+func VerifConnChan(conn any) any {
+	if c, ok := conn.(*connection); ok {
+		return (chan<- *ActiveMessage)(c.activeMsgChan)
+	}
+	return nil
+}
